@@ -60,3 +60,137 @@ pub proof fn lemma_cloned_konst(s: Seq<R>, n: nat, v: R)
 	ensures s =~= konst(n, v)
 {
 }
+
+// weighted sum with weights 1..n (oldest has weight 1, newest weight n)
+pub open spec fn wsum(s: Seq<R>) -> real decreases s.len() {
+	if s.len() == 0 { 0real } else { wsum(s.drop_last()) + (s.len() as real) * s.last()@ }
+}
+pub proof fn lemma_wsum_tail(s: Seq<R>)
+	requires s.len() >= 1
+	ensures wsum(s.drop_first()) == wsum(s) - sum(s)
+	decreases s.len()
+{
+	if s.len() == 1 {
+		reveal_with_fuel(wsum, 2); reveal_with_fuel(sum, 2);
+		assert(s.drop_first().len() == 0);
+		assert(s.drop_last().len() == 0);
+		assert(wsum(s.drop_last()) == 0real);
+		assert(sum(s.drop_last()) == 0real);
+		assert(wsum(s) == 1real * s.last()@);
+		assert(sum(s) == s.last()@);
+	} else {
+		let t = s.drop_last();
+		lemma_wsum_tail(t);
+		let u = s.drop_first();
+		assert(u.drop_last() =~= t.drop_first());
+		assert(u.last() == s.last());
+		let n = s.len() as real;
+		assert(u.len() as real == n - 1real);
+		assert(wsum(u) == wsum(t.drop_first()) + (n - 1real) * s.last()@);
+		assert(wsum(s) == wsum(t) + n * s.last()@);
+		assert(sum(s) == sum(t) + s.last()@);
+		assert((n - 1real) * s.last()@ == n * s.last()@ - s.last()@) by(nonlinear_arith);
+	}
+}
+pub proof fn lemma_wsum_slide(s: Seq<R>, x: R)
+	requires s.len() >= 1
+	ensures wsum(s.drop_first().push(x)) == wsum(s) - sum(s) + (s.len() as real) * x@,
+{
+	let u = s.drop_first().push(x);
+	assert(u.drop_last() =~= s.drop_first());
+	assert(u.last() == x);
+	lemma_wsum_tail(s);
+}
+pub open spec fn tri(n: int) -> int decreases n { if n <= 0 { 0 } else { tri(n - 1) + n } }
+pub proof fn lemma_tri(n: int)
+	requires n >= 0
+	ensures 2 * tri(n) == n * (n + 1), tri(n) >= 0, n >= 1 ==> tri(n) >= 1, (n * (n + 1)) / 2 == tri(n), tri(n) >= n
+	decreases n
+{
+	if n > 0 {
+		lemma_tri(n - 1);
+		assert((n - 1) * n + 2 * n == n * (n + 1)) by(nonlinear_arith);
+	} else {
+		assert(n * (n + 1) == 0) by(nonlinear_arith) requires n == 0;
+	}
+}
+pub proof fn lemma_wsum_konst(n: nat, v: R)
+	ensures wsum(konst(n, v)) == (tri(n as int) as real) * v@
+	decreases n
+{
+	if n == 0 {
+		assert(konst(0, v).len() == 0);
+		assert(tri(0) == 0);
+		assert(0real * v@ == 0real) by(nonlinear_arith);
+	} else {
+		let m = (n - 1) as nat;
+		lemma_wsum_konst(m, v);
+		assert(konst(n, v).drop_last() =~= konst(m, v));
+		assert(konst(n, v).last() == v);
+		lemma_tri(n as int);
+		lemma_tri(m as int);
+		assert(tri(n as int) == tri(m as int) + n);
+		let (a, b, x) = (tri(m as int) as real, n as real, v@);
+		assert(tri(n as int) as real == a + b);
+		assert(a * x + b * x == (a + b) * x) by(nonlinear_arith);
+	}
+}
+
+// generic Σ f(s[i])
+pub open spec fn fsum<A>(s: Seq<A>, f: spec_fn(A) -> real) -> real decreases s.len() {
+	if s.len() == 0 { 0real } else { fsum(s.drop_last(), f) + f(s.last()) }
+}
+pub proof fn lemma_fsum_tail<A>(s: Seq<A>, f: spec_fn(A) -> real)
+	requires s.len() >= 1
+	ensures fsum(s.drop_first(), f) == fsum(s, f) - f(s[0])
+	decreases s.len()
+{
+	if s.len() == 1 {
+		reveal_with_fuel(fsum, 2);
+		assert(s.drop_first().len() == 0);
+		assert(s.drop_last().len() == 0);
+		assert(fsum(s.drop_last(), f) == 0real);
+		assert(s.last() == s[0]);
+	} else {
+		let t = s.drop_last();
+		lemma_fsum_tail(t, f);
+		assert(s.drop_first().drop_last() =~= t.drop_first());
+		assert(s.drop_first().last() == s.last());
+		assert(t[0] == s[0]);
+	}
+}
+pub proof fn lemma_fsum_slide<A>(s: Seq<A>, x: A, f: spec_fn(A) -> real)
+	requires s.len() >= 1
+	ensures fsum(s.drop_first().push(x), f) == fsum(s, f) - f(s[0]) + f(x)
+{
+	lemma_fsum_tail(s, f);
+	assert(s.drop_first().push(x).drop_last() =~= s.drop_first());
+	assert(s.drop_first().push(x).last() == x);
+}
+pub proof fn lemma_fsum_konst<A>(n: nat, v: A, f: spec_fn(A) -> real)
+	ensures fsum(Seq::new(n, |i: int| v), f) == (n as real) * f(v)
+	decreases n
+{
+	let s = Seq::new(n, |i: int| v);
+	if n == 0 {
+		assert(s.len() == 0);
+		assert(0real * f(v) == 0real) by(nonlinear_arith);
+	} else {
+		let m = (n - 1) as nat;
+		lemma_fsum_konst(m, v, f);
+		assert(s.drop_last() =~= Seq::new(m, |i: int| v));
+		assert(s.last() == v);
+		let (mr, nr, x) = (m as real, n as real, f(v));
+		assert(mr == nr - 1real);
+		assert(mr * x + x == nr * x) by(nonlinear_arith) requires mr == nr - 1real;
+	}
+}
+pub proof fn lemma_fsum_nonneg<A>(s: Seq<A>, f: spec_fn(A) -> real)
+	requires forall|i: int| 0 <= i < s.len() ==> f(#[trigger] s[i]) >= 0real
+	ensures fsum(s, f) >= 0real
+	decreases s.len()
+{
+	if s.len() > 0 {
+		lemma_fsum_nonneg(s.drop_last(), f);
+	}
+}
